@@ -27,13 +27,19 @@ def run(ctx):
         sc = af.scenario_from_cex(cex, "cex-stale-upgrade", "local")
         scenarios.append(sc)
         ctx.sample({"adversarial_scenario": sc["name"], "steps": sc["steps"]})
-    scenarios += af.simulated_scenarios(ctx, 40 if not thorough else 400)
+    sims = af.simulated_scenarios(ctx, 40 if not thorough else 400)
+    for i, sc in enumerate(sims):       # every second behaviour goes through the real frontends
+        if i % 2:
+            af.with_frontends(sc, ctx.seed * 31 + i)
+    scenarios += sims
+    scenarios += af.crosstalk_scenarios()
     nload = 8 if not thorough else 40
     for i in range(nload):
         mode = ["local", ""][i % 2]
-        scenarios.append(load_scenario("load-%d-%s" % (i, mode or "off"), mode, ctx.seed * 1000 + i,
-                                       clients=[3, 8, 16][i % 3], calls=10 if not thorough else 30,
-                                       users=("u1", "u2") if i % 4 else ("u1",)))
+        sc = load_scenario("load-%d-%s" % (i, mode or "off"), mode, ctx.seed * 1000 + i,
+                           clients=[3, 8, 16][i % 3], calls=10 if not thorough else 30,
+                           users=("u1", "u2") if i % 4 else ("u1",))
+        scenarios.append(af.with_frontends(sc, i) if i % 2 == 0 else sc)
     results, events = af.run_scenarios(ctx, scenarios, "c11")
     for r in results:
         if r["hung"]:
